@@ -250,6 +250,17 @@ func c15Processor(c *Check, P string, outer, C *ssa.Function, kind string) {
 			c.Report(Dominates(C, u, h), P+".O1", "UNMARSHAL-BEFORE-HANDLE", C, h.Pos(), kind+" handler call", "the value is unmarshaled before the handler is called")
 		}
 	}
+	// the value that is filled and handed to the handler is created anew for this message (inside the closure)
+	for _, u := range unm {
+		okFresh := AllOrigins(Arg(u, 1), func(o ssa.Value) bool {
+			call, ok := o.(*ssa.Call)
+			if !ok || !call.Call.IsInvoke() || (call.Call.Method.Name() != "NewCommand" && call.Call.Method.Name() != "NewEvent") {
+				return false
+			}
+			return call.Parent() == C
+		})
+		c.Report(okFresh, P+".O1", "FRESH-VALUE-PER-MESSAGE", C, u.Pos(), kind+" Unmarshal target", "the value Unmarshal fills is a NewCommand()/NewEvent() result created inside the per-message closure (never one captured from the set-up code and shared between messages)")
+	}
 	// the handler gets the unmarshaled value and the handler of this iteration
 	for _, h := range hcalls {
 		if len(h.Common().Args) != 1 {
